@@ -8,21 +8,34 @@
 #include <stdlib.h>
 #include <string.h>
 #include <time.h>
+#include <unistd.h>
+#include <sys/wait.h>
 #include <pthread.h>
 #include "m.h"
 
 void trap(Trap t) { printf("TRAP %d\n", (int)t); exit(3); }
 
 static struct timespec now_answer, seen_deadline;
+static long long neg_timeout;
+static int neg_mode;
 static int timedwait_calls, clock_calls;
 
 int clock_gettime(clockid_t id, struct timespec* ts) { (void)id; clock_calls++; *ts = now_answer; return 0; }
 
 int e3_timedwait(pthread_cond_t* c, pthread_mutex_t* m, const struct timespec* abstime) {
     (void)c; (void)m;
+    if (neg_mode) { printf("E3N %lld timed %lld %ld\n", neg_timeout, (long long)abstime->tv_sec, (long)abstime->tv_nsec); fflush(stdout); _exit(0); }
     timedwait_calls++;
     seen_deadline = *abstime;
     return ETIMEDOUT;
+}
+
+/* negative timeouts mean "wait forever": the wait must block without a deadline (or with one that is far in the future).  Each case runs
+ * in a forked child; the first blocking call it makes is reported and ends the child. */
+int e3_wait(pthread_cond_t* c, pthread_mutex_t* m) {
+    (void)c; (void)m;
+    if (neg_mode) { printf("E3N %lld untimed 0 0\n", neg_timeout); fflush(stdout); _exit(0); }
+    return 0;
 }
 
 int main(void) {
@@ -43,5 +56,21 @@ int main(void) {
                 r = m_w32o0(&inst, 64, 7, (U64)timeouts[c]);
                 printf("E3 %lld %ld %lld %u %d %lld %ld\n", secs[a], nsecs[b], timeouts[c], r, timedwait_calls, (long long)seen_deadline.tv_sec, (long)seen_deadline.tv_nsec);
             }
+    {
+        static const long long negs[] = {-1, -2, -5, -1000000000LL, -4294967296LL, (-9223372036854775807LL - 1)};
+        fflush(stdout);
+        for (unsigned k = 0; k < sizeof negs / sizeof negs[0]; k++) {
+            pid_t pid = fork();
+            if (pid == 0) {
+                U32 r;
+                now_answer.tv_sec = 1700000000; now_answer.tv_nsec = 5;
+                neg_mode = 1; neg_timeout = negs[k];
+                r = m_w32o0(&inst, 64, 7, (U64)negs[k]);
+                printf("E3N %lld returned %u 0\n", negs[k], r); fflush(stdout);
+                _exit(0);
+            }
+            if (pid > 0) { int st; waitpid(pid, &st, 0); }
+        }
+    }
     return 0;
 }
